@@ -63,9 +63,11 @@ type Exec struct {
 	// task (true) or is left out (false, e.g. a timer loop driven explicitly instead).
 	SpawnFilter func(src string) bool
 	Faults      []string // ownership faults etc. recorded by the shims
+	inline      bool
 	steps       int
 	maxSteps    int
 	wg          sync.WaitGroup
+	envOff      int
 }
 
 // Aborted reports that the execution is being torn down: hooked operations must
@@ -242,7 +244,7 @@ func Block(can func() bool, what string) {
 // Choose is an environment choice point with n alternatives (0 = default answer).
 func Choose(n int, desc string) int {
 	e := active
-	if e == nil || n <= 1 || e.aborted {
+	if e == nil || n <= 1 || e.aborted || e.envOff > 0 {
 		return 0
 	}
 	return e.choose(KindEnv, n, false, desc)
@@ -318,6 +320,10 @@ func Go(src string, fn func()) {
 	if e.SpawnFilter != nil && !e.SpawnFilter(src) {
 		return
 	}
+	if e.inline {
+		fn()
+		return
+	}
 	e.newTask(fmt.Sprintf("go#%d(%s)", len(e.tasks), src), fn)
 	Point("spawn:" + src)
 }
@@ -351,6 +357,10 @@ type Options struct {
 	MaxExecutions   int
 	MaxSteps        int
 	SpawnFilter     func(src string) bool
+	// InlineSpawns runs goroutines spawned by the code under test to completion at
+	// the spawn point (sequential histories: "the asynchronous step has happened
+	// before the next event"); the harness' own tasks are not affected.
+	InlineSpawns bool
 }
 
 // RunOnce executes body under the schedule given by prefix (then default choices).
@@ -359,7 +369,7 @@ func RunOnce(body func(), prefix []int, opt Options) Result {
 		panic("nested exploration")
 	}
 	e := &Exec{prefix: prefix, finished: make(chan struct{}), Mutexes: map[interface{}]*MutexState{}, Pools: map[interface{}]*PoolState{},
-		SpawnFilter: opt.SpawnFilter, maxSteps: opt.MaxSteps}
+		SpawnFilter: opt.SpawnFilter, maxSteps: opt.MaxSteps, inline: opt.InlineSpawns}
 	if e.maxSteps == 0 {
 		e.maxSteps = 200000
 	}
@@ -510,4 +520,31 @@ func Replay(body func(), choices []int, opt Options) (Result, bool) {
 	same := strings.Join(r1.Obs, "|") == strings.Join(r2.Obs, "|") && r1.Failure == r2.Failure &&
 		strings.Join(r1.Faults, "|") == strings.Join(r2.Faults, "|") && fmt.Sprint(r1.Choices) == fmt.Sprint(r2.Choices)
 	return r1, same
+}
+
+// DefaultEnv runs fn with environment choice points answering their default
+// (used by harness code that only observes, so that the deviation budget is
+// spent on the operations under test).
+func DefaultEnv(fn func()) {
+	e := active
+	if e == nil {
+		fn()
+		return
+	}
+	e.envOff++
+	defer func() { e.envOff-- }()
+	fn()
+}
+
+// Describe lists the recorded choice points of the execution (for diagnostics).
+func (r Result) Describe() []string {
+	var out []string
+	for _, p := range r.kinds {
+		k := "sched"
+		if p.kind == KindEnv {
+			k = "env"
+		}
+		out = append(out, fmt.Sprintf("%s n=%d chosen=%d %s", k, p.n, p.chosen, p.desc))
+	}
+	return out
 }
